@@ -144,6 +144,39 @@ impl Prop for C18 {
         let batch_root = scratch.path.join("batch");
         let solo_root = scratch.path.join("solo");
         std::fs::create_dir_all(&batch_root).unwrap();
+        if idx % 32 == 3 {
+            // ---- a batch with very many failing members (counts around 256 and 512): every good
+            // member is still formatted and the exit status is non-zero whatever the number of failures
+            let n_bad = *rng.pick(&[255usize, 256, 256, 257, 512]);
+            let n_good = rng.range(3, 12);
+            let cfg = Cfg::sample_sane(&mut rng);
+            for i in 0..n_bad {
+                std::fs::write(batch_root.join(format!("bad{i}.pas")), b"begin x := '\xff\xfe'; end.").unwrap();
+            }
+            let good_text = "begin\n  Foo   :=  Bar( A ,B )+1 ;\nend.\n";
+            let Some((expected, _)) = common::run(&mut out, &cfg, good_text) else { return out };
+            for i in 0..n_good {
+                std::fs::write(batch_root.join(format!("good{i}.pas")), good_text).unwrap();
+            }
+            let threads = *rng.pick(&[1usize, 2, 8, 16]);
+            let mut a = cfg.to_cli_args();
+            a.push(".".into());
+            out.evals += 1;
+            out.count(&format!("many_failing_members.{n_bad}"));
+            let r = cli::run(Invocation { bin: &ctx.cli_bin, args: a, cwd: &batch_root, stdin: None, env: vec![("RAYON_NUM_THREADS".into(), threads.to_string())], as_nobody: false });
+            if r.ok() {
+                out.violate("C18", "exit-status", format!("[{}] {n_bad} members failed to decode but the exit status is 0 ({threads} threads)", cfg.short()), "", Some(&cfg));
+            }
+            for i in 0..n_good {
+                let got = std::fs::read(batch_root.join(format!("good{i}.pas"))).unwrap_or_default();
+                if got != expected.as_bytes() {
+                    out.violate("C18", "member-differs", format!("[{}] good member good{i}.pas next to {n_bad} failing members is not formatted as it is alone", cfg.short()), good_text, Some(&cfg));
+                    break;
+                }
+            }
+            out.nontrivial.push(rng::hash_str(&format!("many{n_bad}-{threads}")));
+            return out;
+        }
         std::fs::create_dir_all(&solo_root).unwrap();
         let n = rng.range(20, ctx.tier.pick(120, 400));
         let cfg = Cfg::sample_sane(&mut rng);
